@@ -129,6 +129,26 @@ type etype =
 | EU64
 | EI64
 
+(** val etype_eqb : etype -> etype -> bool **)
+
+let etype_eqb a b =
+  match a with
+  | EU8 -> (match b with
+            | EU8 -> true
+            | _ -> false)
+  | EU16 -> (match b with
+             | EU16 -> true
+             | _ -> false)
+  | EU32 -> (match b with
+             | EU32 -> true
+             | _ -> false)
+  | EU64 -> (match b with
+             | EU64 -> true
+             | _ -> false)
+  | EI64 -> (match b with
+             | EI64 -> true
+             | _ -> false)
+
 type section =
 | SInts of etype * coq_Z list
 | SF64 of coq_Z list
